@@ -2,7 +2,7 @@
 //! GsNode that is *not* subscribed to the topic, flood_publish off, mesh_n = 2).
 
 use crate::explore::{self, Maker, Sys};
-use crate::meshsys::make_config;
+use crate::meshsys::{make_config, score_params};
 use crate::node::{self, GsNode, Kind};
 use kit::ids::peer;
 use libp2p_gossipsub as gs;
@@ -14,9 +14,9 @@ use std::sync::Arc;
 
 pub const META: Meta = Meta {
     level: "model_checking",
-    rule: "BFS over histories of {connect, disconnect, Subscribe RPC, Unsubscribe RPC (3 gossipsub v1.1 peers), publish to T, heartbeat} against one real gossipsub Behaviour that is not subscribed to T (flood_publish off, mesh_n = 2, so the fanout holds at most 2 of the 3 peers and a replacement is observable). Non-trivial = distinct reached states with a non-empty fanout set.",
+    rule: "BFS over histories of {connect, disconnect, Subscribe RPC, Unsubscribe RPC (3 gossipsub v1.1 peers), publish to T, heartbeat; with scoring active also: application score of a peer below / back above publish_threshold} against one real gossipsub Behaviour that is not subscribed to T (flood_publish off, mesh_n = 2, so the fanout holds at most 2 of the 3 peers and a replacement is observable). Non-trivial = distinct reached states with a non-empty fanout set.",
     explanation: "Around every publish the topic's fanout set is read (hook) before and after; every peer that was in the fanout before and is still eligible (connected and subscribed to T as the node was told) must still be in it afterwards. Every transition is one execution of the real code with owned entropy; states deduplicated on model + fanout/mesh/peer projections; un-deduplicated companion search; thorough repeats under 4 entropy seeds (different peer samples).",
-    assumptions: &["3 peers / 1 topic / depth-bounded histories (small-scope)", "eligibility = connected and subscribed (no scoring configured, no explicit peers, all peers gossipsub)", "message-cache contents are not part of the canonical key (they do not influence fanout selection)"],
+    assumptions: &["3 peers / 1 topic / depth-bounded histories (small-scope)", "eligibility = connected, subscribed and score not below publish_threshold (scoring configured in half of the configurations; no explicit peers, all peers gossipsub)", "message-cache contents are not part of the canonical key (they do not influence fanout selection)"],
 };
 
 const T: &str = "T1";
@@ -29,17 +29,29 @@ pub enum Act {
     Unsub(u8),
     Publish,
     Heartbeat,
+    /// application score so low that the peer falls below publish_threshold (true) / back to 0
+    Score(u8, bool),
 }
 
 #[derive(Clone, Debug, Serialize, Deserialize)]
 pub struct Cfg {
     pub seed: u64,
+    /// 0 = empty start, 1 = all three peers already connected
+    #[serde(default)]
+    pub start: u8,
+    /// peer scoring active (publish_threshold -50) and the score actions offered
+    #[serde(default)]
+    pub scoring: bool,
 }
 
 pub struct FanSys {
     node: GsNode,
     connected: [bool; 3],
     subs: [bool; 3],
+    /// score below publish_threshold (set by the Score action; cleared on disconnect only if the
+    /// behaviour forgets the peer, which it does not for non-positive scores -> kept)
+    low: [bool; 3],
+    scoring: bool,
     published: u32,
     marks: Vec<String>,
 }
@@ -49,10 +61,20 @@ fn pid(i: u8) -> PeerId {
 }
 
 impl FanSys {
-    pub fn new() -> Self {
+    pub fn new(cfg: &Cfg) -> Self {
         // mesh parameters 3 = (outbound_min 1, n_low 1, n 2, n_high 2); flood_publish off
-        let beh = gs::Behaviour::new(gs::MessageAuthenticity::Author(peer(0)), make_config(3, false)).expect("behaviour");
-        FanSys { node: GsNode::new(beh), connected: [false; 3], subs: [false; 3], published: 0, marks: vec![] }
+        let mut beh = gs::Behaviour::new(gs::MessageAuthenticity::Author(peer(0)), make_config(3, false)).expect("behaviour");
+        if cfg.scoring {
+            let (sp, st) = score_params();
+            beh.with_peer_score(sp, st).expect("score params");
+        }
+        let mut s = FanSys { node: GsNode::new(beh), connected: [false; 3], subs: [false; 3], low: [false; 3], scoring: cfg.scoring, published: 0, marks: vec![] };
+        if cfg.start == 1 {
+            for p in 0..3 {
+                s.step(&Act::Connect(p)).expect("preamble");
+            }
+        }
+        s
     }
     fn fanout(&self) -> BTreeSet<u8> {
         self.node.beh.verif_fanout().get(T).map(|v| v.iter().map(|p| kit::ids::pidx(p).map(|i| i.wrapping_sub(1)).unwrap_or(200)).collect()).unwrap_or_default()
@@ -71,6 +93,13 @@ impl Sys for FanSys {
                 v.push(if self.subs[p as usize] { Act::Unsub(p) } else { Act::Sub(p) });
             }
         }
+        if self.scoring {
+            for p in 0..3u8 {
+                if self.connected[p as usize] {
+                    v.push(Act::Score(p, !self.low[p as usize]));
+                }
+            }
+        }
         v.push(Act::Publish);
         v.push(Act::Heartbeat);
         v
@@ -80,11 +109,16 @@ impl Sys for FanSys {
             Act::Connect(p) => {
                 self.node.connect(pid(p), p == 0, Kind::G11);
                 self.connected[p as usize] = true;
+                self.low[p as usize] = self.node.beh.peer_score(&pid(p)).is_some_and(|s| s < -50.0);
             }
             Act::Disconnect(p) => {
                 self.node.disconnect(pid(p));
                 self.connected[p as usize] = false;
                 self.subs[p as usize] = false;
+                // the behaviour retains non-positive scores of disconnected peers, but the
+                // application score of a retained peer can no longer be read back reliably from
+                // here; the model re-reads it from the behaviour on the next connect
+                self.low[p as usize] = false;
             }
             Act::Sub(p) | Act::Unsub(p) => {
                 let sub = matches!(a, Act::Sub(_));
@@ -92,6 +126,12 @@ impl Sys for FanSys {
                 self.subs[p as usize] = sub;
             }
             Act::Heartbeat => self.node.heartbeat(),
+            Act::Score(p, low) => {
+                // weight 1, publish_threshold -50: -100 is below it, 0 is not
+                self.node.beh.set_application_score(&pid(p), if low { -100.0 } else { 0.0 });
+                self.node.pump();
+                self.low[p as usize] = low;
+            }
             Act::Publish => {
                 let before = self.fanout();
                 self.published += 1;
@@ -113,7 +153,15 @@ impl Sys for FanSys {
                 if after.difference(&before).next().is_some() && !before.is_empty() {
                     self.marks.push("publish.fanout-grew-or-changed".into());
                 }
-                let eligible: BTreeSet<u8> = (0..3u8).filter(|p| self.connected[*p as usize] && self.subs[*p as usize]).collect();
+                // eligible = what publish itself and the heartbeat's fanout maintenance require:
+                // connected, subscribed, score not below publish_threshold
+                let eligible: BTreeSet<u8> = (0..3u8).filter(|p| self.connected[*p as usize] && self.subs[*p as usize] && !self.low[*p as usize]).collect();
+                if before.iter().any(|p| *p < 3 && self.low[*p as usize]) {
+                    self.marks.push("publish.with-low-score-fanout-peer".into());
+                }
+                if after.len() > 2 {
+                    self.marks.push("publish.fanout-above-mesh_n".into());
+                }
                 let lost: Vec<u8> = before.intersection(&eligible).filter(|p| !after.contains(p)).copied().collect();
                 if !lost.is_empty() {
                     let added: Vec<u8> = after.difference(&before).copied().collect();
@@ -142,7 +190,7 @@ impl Sys for FanSys {
     }
     fn canon(&self) -> Vec<u8> {
         let views: Vec<_> = (0..3u8).map(|p| self.node.beh.verif_peer(&pid(p))).collect();
-        format!("{:?}|{:?}|{:?}|{:?}|{:?}|{:?}", self.connected, self.subs, self.node.beh.verif_fanout(), self.node.beh.verif_fanout_last_pub(), self.node.mesh(), views).into_bytes()
+        format!("{:?}|{:?}|{:?}|{:?}|{:?}|{:?}|{:?}", self.low, self.connected, self.subs, self.node.beh.verif_fanout(), self.node.beh.verif_fanout_last_pub(), self.node.mesh(), views).into_bytes()
     }
     fn nontrivial(&self) -> bool {
         !self.fanout().is_empty()
@@ -152,16 +200,17 @@ impl Sys for FanSys {
     }
 }
 
-fn maker() -> Maker<FanSys> {
-    Arc::new(FanSys::new)
+fn maker(cfg: &Cfg) -> Maker<FanSys> {
+    let cfg = cfg.clone();
+    Arc::new(move || FanSys::new(&cfg))
 }
 
 pub fn run(ctx: &Ctx) -> Outcome {
     if let Some(case) = &ctx.replay {
         let mut out = Outcome::default();
         out.evaluations = 1;
-        let seed = case["cfg"]["seed"].as_u64().unwrap_or(11);
-        match explore::replay(maker(), seed, case) {
+        let cfg: Cfg = serde_json::from_value(case["cfg"].clone()).unwrap_or(Cfg { seed: 11, start: 0, scoring: false });
+        match explore::replay(maker(&cfg), cfg.seed, case) {
             Ok(Some(m)) => out.violation(mc::bfs::signature_of(&m), m, case.clone()),
             Ok(None) => {}
             Err(e) => out.machinery(e),
@@ -177,19 +226,24 @@ pub fn run(ctx: &Ctx) -> Outcome {
     let mut out = mc::workers(ctx, 16, |ctx| {
         let mut out = Outcome::default();
         for seed in &seeds {
-            let cj = json!(Cfg { seed: *seed });
-            let s = explore::search(maker(), *seed, depth, 3, true, ctx.worker, k, 0);
-            explore::record(&mut out, &cj, &s, "bfs");
-            let mut d = explore::search(maker(), *seed, ddepth, 2, false, ctx.worker, 0, 0);
-            out.count("dfs_companion_sequences", d.stats.transitions);
-            d.stats.nontrivial_keys.clear();
-            d.stats.marks.clear();
-            d.stats.states = 0;
-            explore::record(&mut out, &cj, &d, "dfs-companion");
+            // (start, scoring): the original exploration from the empty node without scoring, and
+            // one from "all peers connected" with scoring and the score actions
+            for (start, scoring, dd) in [(0u8, false, 0usize), (1, true, 1)] {
+                let cfg = Cfg { seed: *seed, start, scoring };
+                let cj = json!(cfg);
+                let s = explore::search(maker(&cfg), *seed, depth - dd, 3, true, ctx.worker, k, 0);
+                explore::record(&mut out, &cj, &s, "bfs");
+                let mut d = explore::search(maker(&cfg), *seed, ddepth - dd, 2, false, ctx.worker, 0, 0);
+                out.count("dfs_companion_sequences", d.stats.transitions);
+                d.stats.nontrivial_keys.clear();
+                d.stats.marks.clear();
+                d.stats.states = 0;
+                explore::record(&mut out, &cj, &d, "dfs-companion");
+            }
         }
         out
     });
-    for g in ["publish.ok", "publish.with-existing-fanout", "publish.fanout-grew-or-changed"] {
+    for g in ["publish.ok", "publish.with-existing-fanout", "publish.fanout-grew-or-changed", "publish.with-low-score-fanout-peer", "publish.fanout-above-mesh_n"] {
         if out.get(g) == 0 {
             out.machinery(format!("vacuity guard: counter '{g}' is zero"));
         }
